@@ -29,13 +29,9 @@ SHAPES = {
 def full_mesh(nx, nyf, shape="flat", span=10.0, chord=1.5, off=(0.0, 0.0, 0.0), rng=None, jitter=0.0, asym=0.0):
     """Full-span mesh (nx, nyf, 3), nyf odd, y increasing with index j (left tip first), mirror
     symmetric unless asym != 0.  Spanwise spacing slightly non-uniform so index bugs show."""
-    assert nyf % 2 == 1
     sw, tp, dh, tw, cb = SHAPES[shape]
-    nh = (nyf - 1) // 2
-    # half-span stations eta in [0,1] from root to tip, mildly clustered
-    eta = np.linspace(0.0, 1.0, nh + 1)
-    eta = eta + 0.15 * eta * (1 - eta)
-    ys = np.concatenate([-eta[::-1][:-1], eta]) * span / 2.0  # length nyf
+    t = np.linspace(-1.0, 1.0, nyf)
+    ys = (t + 0.15 * t * (1 - np.abs(t))) * span / 2.0  # symmetric, mildly clustered; centre node iff nyf odd
     mesh = np.zeros((nx, nyf, 3))
     xi = np.linspace(0.0, 1.0, nx)
     xi = xi + 0.1 * xi * (1 - xi)
@@ -57,9 +53,12 @@ def full_mesh(nx, nyf, shape="flat", span=10.0, chord=1.5, off=(0.0, 0.0, 0.0), 
             mesh[i, j, 2] = zle + zr
     if rng is not None and jitter > 0:
         # symmetric jitter in x,z (keeps mirror symmetry and chordwise-constant y)
-        d = rng.uniform(-1, 1, size=(nx, nh + 1, 3)) * jitter * chord
+        nhc = (nyf + 1) // 2
+        d = rng.uniform(-1, 1, size=(nx, nhc, 3)) * jitter * chord
         d[:, :, 1] = 0.0
-        full = np.concatenate([d[:, ::-1, :][:, :-1, :], d], axis=1)
+        full = np.zeros((nx, nyf, 3))
+        full[:, :nhc, :] = d
+        full[:, nyf - nhc :, :] = d[:, ::-1, :]
         mesh = mesh + full
     mesh = mesh + np.asarray(off, dtype=float)
     return mesh
